@@ -681,6 +681,27 @@ KNOWN_CLASSES = {
 }
 
 
+def _probe_d57(ctx):
+  """Fixed witness of known finding D57 on the real code: the scale of a KFL layer is
+  updated alone (its sign flips) and the kernel, constrained against the old sign, is not
+  constrained again."""
+  tf, tfl = tfimpl.tfl()
+  import tf_keras as keras
+  keras.utils.set_random_seed(0)
+  l = tfl.layers.KroneckerFactoredLattice(lattice_sizes=2, num_terms=1, monotonicities=[1],
+                                          output_min=-1.0, output_max=1.0)
+  l(tf.zeros((1, 1)))
+  keras.optimizers.SGD(1.0).apply_gradients([(tf.ones_like(l.scale) * 1.5, l.scale)])
+  y = l(tf.constant([[0.0], [1.0]])).numpy().ravel()
+  if y[0] > y[1] + 1e-6:
+    return "scale-only SGD step on KroneckerFactoredLattice(2, monotonicities=[1], bounds [-1,1]): f(0)=%.4f > f(1)=%.4f" % (
+        y[0], y[1])
+  return None
+
+
+KNOWN_PROBES = {"kfl_scale_changed_after_kernel_constraint": _probe_d57}
+
+
 def extra(ctx, stats):
   stats.update(_STATS)
   return []
